@@ -9,6 +9,7 @@ INVARIANT IneqFeasible
 INVARIANT IneqIdempotent
 INVARIANT IneqFixedIffFeasible
 INVARIANT IneqNearest
+INVARIANT IneqHomogeneous
 INVARIANT EqFeasible
 INVARIANT EqIdempotent
 INVARIANT EqFixedIffFeasible
